@@ -19,6 +19,7 @@ from sim import wire as W
 from sim.world import Run
 
 ID = "C30"
+HANG_WATCHDOG = True
 LEVEL = "exploration"
 RUNS = {"quick": 12000, "thorough": 1200000}
 BUDGET = {"quick": 100.0, "thorough": 3300.0}
@@ -54,9 +55,15 @@ def gen(seed: int, tier: str) -> dict[str, Any]:
     ops = []
     n = rng.choice([2, 5, 10, 20])
     for i in range(n):
-        k = rng.choices(["wrapped", "wrapped_forged", "wrapped_wrong_key", "notify", "notify_forged", "plain", "send"],
-                        [6, 2, 1, 3, 2, 3, 4])[0]
+        k = rng.choices(["wrapped", "wrapped_forged", "wrapped_wrong_key", "notify", "notify_forged", "plain", "send",
+                         "wrapped_bad_inner"],
+                        [6, 2, 1, 3, 2, 3, 4, 2])[0]
         op: dict[str, Any] = {"t": round(rng.uniform(4.0, 4.0 + horizon), 6), "op": k, "id": i + 1}
+        if k == "wrapped_bad_inner":
+            # authentic and timely, but what is inside is not a well-formed frame (a peer with the key and a bug)
+            op["off"] = rng.choice([0, 1, -50])
+            op["inner"] = rng.choice(["busy_empty", "ind_short", "lost_empty", "unknown_svc", "bad_header", "search_res_dib0",
+                                      "ind_bad_cemi", "empty"])
         if k in ("wrapped", "wrapped_forged", "wrapped_wrong_key", "notify", "notify_forged"):
             op["off"] = rng.choice(OFFS) if k != "notify_forged" else rng.choice([10 ** 6, 10 ** 9, 5000])
         if k == "wrapped_forged":
@@ -78,6 +85,12 @@ def gen(seed: int, tier: str) -> dict[str, Any]:
         for j in range(rng.choice([1, 2])):
             ops.append({"t": round(rng.uniform(0.02, 2.5), 6), "op": rng.choice(["wrapped_forged", "wrapped_wrong_key", "notify_forged"]),
                         "id": 200 + j, "off": rng.choice([10 ** 6, 2 ** 40, 10 ** 9]), "flip": rng.randrange(60 * 8, 70 * 8)})
+    if rng.random() < 0.2:
+        # the interface is disconnected and connected again (same object); nobody answers the second synchronisation
+        tr_ = round(rng.uniform(5.0, 4.0 + horizon), 6)
+        ops.append({"t": tr_, "op": "reconnect", "id": 300})
+        for j in range(rng.choice([1, 2])):
+            ops.append({"t": round(tr_ + 4.5 + rng.uniform(0.0, 3.0), 6), "op": "send", "id": 301 + j})
     ops.sort(key=lambda o: o["t"])
     return {"seed": seed, "tier": "S" if sync not in ("dup", "one+stale") else "P",
             "config": {"sync": sync, "latency_ms": rng.choice([1000, 1000, 2000, 500]),
@@ -222,13 +235,21 @@ def run(plan: dict[str, Any]) -> dict[str, Any]:
         info["timekeeper_after_sync"] = timer.timekeeper
         tasks = []
 
+        inflight: set[int] = set()
+        unjudged: set[int] = info.setdefault("unjudged_sends", set())
+
         async def do_send(pid):
             raw = W.cemi_ldata(W.L_DATA_REQ, 0, W.ga(1, 1, 1), tpci_apci=W.gv_write(pid.to_bytes(2, "big")))
+            if info.get("reconnecting"):
+                unjudged.add(pid)
+            inflight.add(pid)
             try:
                 await routing.send_cemi(CEMIFrame.from_knx(raw))
                 info.setdefault("sent_ok", []).append(pid)
             except CommunicationError:
                 pass
+            finally:
+                inflight.discard(pid)
 
         def do(op):
             k = op["op"]
@@ -237,10 +258,35 @@ def run(plan: dict[str, Any]) -> dict[str, Any]:
             if k == "send":
                 tasks.append(loop.create_task(do_send(pid)))
                 return
+            if k == "reconnect":
+                async def reconnect():
+                    info["reconnecting"] = True
+                    unjudged.update(inflight)      # sends in flight when the interface is taken down may fail
+                    await routing.disconnect()
+                    await asyncio.sleep(0.05)
+                    try:
+                        await routing.connect()
+                    except CommunicationError:
+                        info["reconnect"] = "failed"
+                    info["reconnecting"] = False
+                R.extra_faults["disconnect_and_connect_again"] += 1
+                tasks.append(loop.create_task(reconnect()))
+                return
             loop.at(loop.time() + lat, lambda: samples.__setitem__(pid, timer.current_timer_value()))
             ind = W.routing_indication(W.cemi_ldata(W.L_DATA_IND, 0x1107, W.ga(1, 1, 2), tpci_apci=W.gv_write(pid.to_bytes(2, "big"))))
             local_guess = timer.current_timer_value()
-            if k in ("wrapped", "wrapped_forged", "wrapped_wrong_key"):
+            if k == "wrapped_bad_inner":
+                value = max(1, local_guess + op["off"])
+                inner = {"busy_empty": W.frame(W.ROUTING_BUSY, b""), "ind_short": W.frame(W.ROUTING_IND, b"\x29"),
+                         "lost_empty": W.frame(W.ROUTING_LOST, b""), "unknown_svc": W.frame(0x0FFF, b"\x01\x02"),
+                         "bad_header": bytes((6, 0x20, 0x05, 0x30, 0x00, 0x08, 1, 2)),
+                         "search_res_dib0": W.frame(W.SEARCH_RES, W.hpai("10.0.0.7", 3671) + bytes((0x00, 0x02))),
+                         "ind_bad_cemi": W.frame(W.ROUTING_IND, bytes((0x29, 0x05, 0x01))), "empty": b""}[op["inner"]]
+                fr = C.wrap(key, 0, value.to_bytes(6, "big"), b"\x00\xfa\x12\x34\x56\x78", rng.randbytes(2), inner)
+                auth_in.append((loop.time() + lat, value))
+                R.extra_faults["authentic_wrapper_with_malformed_inner_frame"] += 1
+                peers[0].sendto(fr, MCAST, lat=lat, nofault=True)
+            elif k in ("wrapped", "wrapped_forged", "wrapped_wrong_key"):
                 value = max(1, local_guess + op["off"])
                 values[pid] = value
                 fr = C.wrap(key if k != "wrapped_wrong_key" else bytes(16), 0, value.to_bytes(6, "big"), b"\x00\xfa\x12\x34\x56\x78",
@@ -369,9 +415,13 @@ def run(plan: dict[str, Any]) -> dict[str, Any]:
                       f"outgoing timer value {v1} at {t1:.3f} then {v2} at {t2:.3f}; largest authenticated value in between allows {allowed:.0f}")
     # an unanswered synchronisation still leads to sending
     if info.get("connect") != "failed":
-        n_send = sum(1 for o in plan["ops"] if o["op"] == "send")
-        if n_send and len(info.get("sent_ok", [])) != n_send:
-            R.violate("C30.sends-after-sync", "send-did-not-complete", f"{len(info.get('sent_ok', []))}/{n_send} sends completed (sync mode {cfg['sync']})")
+        rec_t = [o["t"] for o in plan["ops"] if o["op"] == "reconnect"]
+        # sends issued while the interface is disconnected / synchronising again may fail - not judged
+        want_sent = {o["id"] for o in plan["ops"] if o["op"] == "send"} - set(info.get("unjudged_sends") or ())
+        missing = want_sent - set(info.get("sent_ok", []))
+        if missing and info.get("reconnect") != "failed":
+            R.violate("C30.sends-after-sync", "send-did-not-complete",
+                      f"sends {sorted(missing)} of {len(want_sent)} did not complete (sync mode {cfg['sync']})")
         if cfg["sync"] in ("none", "forged", "late") and not info.get("timekeeper_after_sync"):
             R.violate("C30.sends-after-sync", "not-timekeeper-after-unanswered-sync", cfg["sync"])
         if cfg["sync"] in ("forged",) and info.get("connect_t", 9) < 1.0:
